@@ -68,7 +68,9 @@ Definition run_C05 (op : bytes) (input : arg) : arg :=
     let d := arg_bytes (arg_nth 0 input) in
     (* fourth slot: the necessary condition assumed of the UUID sniffer holds for its recorded verdict *)
     AL [ok_arg (is_asn1 d); ok_arg (is_b64_asn1 d); ok_arg (is_mixed_pem d);
-        ok_arg (negb (arg_bool (arg_nth 1 input)) || uuid_possible d)]
+        ok_arg (negb (arg_bool (arg_nth 1 input)) || uuid_possible d);
+        (* fifth slot: likewise for the JWT sniffer *)
+        ok_arg (negb (arg_bool (arg_nth 2 input)) || jwt_possible d)]
   else if bytes_eqb op (bs "pemblock") then
     let L := lib_of [arg_nth 2 input] in
     obs_result arg_of_info (parse_pem_block L (arg_bytes (arg_nth 0 input)) (arg_bytes (arg_nth 1 input)))
